@@ -10,7 +10,7 @@ EXPLANATION = ('Structural necessary conditions of the connection handshake: the
                'state shows no other high-priority insertion can execute while pending CONNACK; the pending-CONNACK service only '
                'dequeues high priority; the service loop only encodes in PendingConnack/Connected and a written DISCONNECT leaves those '
                'states; CONNACK success guards; clean-start decision table; negotiated-settings defaults vs specification; every '
-               'ConnectOptions field reaches the CONNECT packet. Added in round 2: every answer of the PendingConnack next-service-time function is computed from the CONNACK deadline.')
+               'ConnectOptions field reaches the CONNECT packet. Added in round 2: every answer of the PendingConnack next-service-time function is computed from the CONNACK deadline. Added after the mutation sweeps: each of PendingConnack and Connected alone lets the service loop run (sufficiency); the ConnectOptions builder setters and the connect timeout setter store their argument.')
 ASSUMPTIONS = ['not decided: "exactly one CONNECT / nothing before CONNACK" over all timings and buffer sizes beyond the structural conditions; '
                'typestate is a may-analysis over the CFG (sound for "cannot execute in state X")']
 P = 'src/protocol.rs'
